@@ -594,7 +594,18 @@ func ruleP03Result(p *Prog, r *Report) {
 					if fa, ok := st.Addr.(*ssa.FieldAddr); ok && typeNameOf(fa.X.Type()) == "Reconciler" && fieldName(fa) == "lines" {
 						n++
 						c, isC := isCallTo(st.Val, flat, 0)
-						okArg := isC && len(g.Params) == 2 && deref(c.Common().Args[0]) == ssa.Value(g.Params[1])
+						okArg := false
+						if isC {
+							// the blocks parameter of the creator's own function (also when the
+							// construction sits in a helper that is handed the blocks)
+							if par, isPar := deref(c.Common().Args[0]).(*ssa.Parameter); isPar {
+								for _, h := range plainWithAnons(cr) {
+									if h != cr && len(h.Params) == 2 && par == h.Params[1] {
+										okArg = true
+									}
+								}
+							}
+						}
 						r.check(okArg, rule, name+":lines", p.instrPos(st), "the reconciler starts from flatten(all blocks)", "the reconciler's lines are not flatten(blocks of the parsed file)")
 					}
 				}
